@@ -1,7 +1,8 @@
 (* C09 — executable model of the literal paths of /repo (definitions only, no proofs):
 
      strconv.ParseUint / ParseInt / underscoreOK      (GOROOT/src/strconv/atoi.go, transcribed)
-     parser.parseNumber, parseString, parseUnaryMinus, parseArrayLiteral, parseGroupedOrTuple
+     big.Int.SetString(s, 0)                          (GOROOT/src/math/big: nat.scan, Int.scan, setFromScanner, transcribed)
+     parser.parseNumber, parseRadixToFloat, parseString, parseUnaryMinus, parseArrayLiteral, parseGroupedOrTuple
                                                       (/repo/parser/expression.go) for literal elements
      explain.FormatLiteral, FormatFloat, escapeStringLiteral, formatArrayLiteral, formatTupleLiteral,
      formatNumericExpr, formatExprAsString (the two cases that are reachable), explainLiteral's
@@ -428,8 +429,28 @@ with tuples_rec_e (e : lexpr) : bool :=
   end.
 Definition tuples_rec (es : list lexpr) : bool := existsb tuples_rec_e es.
 
-(* the LiteralArray case.  containsNonLiteralExpressions[Recursive] are constantly false inside the fragment
-   (every element is a Literal or a unary minus of a Literal, none parenthesised) and are omitted. *)
+(* containsNonLiteralExpressions / containsNonLiteralExpressionsRecursive.  Inside the fragment every element is an
+   unparenthesised Literal or a unary minus of one: only the minus of a NON-numeric literal (a string, which includes
+   the number texts parseNumber keeps as strings) is a "non-literal expression" *)
+Definition nonlit_e (e : lexpr) : bool :=
+  match e with
+  | ELit _ => false
+  | ENeg v => negb (is_numeric v)
+  end.
+
+Fixpoint nonlit_rec_v (v : lval) : bool :=
+  match v with
+  | VArr inner => existsb nonlit_rec_e inner
+  | _ => false
+  end
+with nonlit_rec_e (e : lexpr) : bool :=
+  match e with
+  | ELit v => match v with VArr _ => nonlit_rec_v v | _ => false end
+  | ENeg v => negb (is_numeric v)
+  end.
+Definition nonlit_rec (es : list lexpr) : bool := existsb nonlit_rec_e es.
+
+(* the LiteralArray case *)
 Definition array_is_function (es : list lexpr) : bool :=
   let should :=
     existsb (fun e => match e with
@@ -441,11 +462,12 @@ Definition array_is_function (es : list lexpr) : bool :=
   let nested_need :=
     existsb (fun e => match e with
                       | ELit (VArr inner) =>
+                          existsb nonlit_e inner ||
                           Nat.eqb (length inner) 0 || existsb is_tup inner || existsb is_empty_arr inner
                       | _ => false
                       end) es in
   Nat.eqb (length es) 0 || should || (has_nested && nested_need) ||
-  (has_nested && empty_arrays_rec es) || (has_nested && tuples_rec es).
+  (has_nested && empty_arrays_rec es) || (has_nested && tuples_rec es) || (has_nested && nonlit_rec es).
 
 (* what the first select column's line is *)
 Inductive lout :=
@@ -460,30 +482,78 @@ Definition explain_literal (v : lval) : lout :=
   | _ => OLit (format_literal v)
   end.
 
-(* parseHexToFloat: "0x"/"0X" + big.Int.SetString(hexPart, 16) (hex digits only, at least one; a NUMBER token
-   contains no sign outside a hex-float exponent) + big.Float -> float64 *)
-Definition hex_digit_val (c : N) : option N :=
-  if in_range 48 57 c then Some (c - 48)
-  else if in_range 97 102 c then Some (c - 97 + 10)
-  else if in_range 65 70 c then Some (c - 65 + 10)
-  else None.
+(* math/big (GOROOT/src/math/big/{natconv,intconv,int}.go, transcribed): Int.SetString(s, 0)
+   = setFromScanner: scanSign, nat.scan(r, 0, false), and the whole text must have been consumed.
 
-Fixpoint hex_val (s : list N) (acc : N) : option N :=
+   nat.scan with base = 0, fracOk = false: the digit value of a character ('0'..'9', 'a'..'z', 'A'..'Z' -- the
+   actual base is at most 16 <= maxBaseSmall, so both letter cases count from 10), MaxBase + 1 = 63 for anything
+   else *)
+Definition big_digit (c : N) : N :=
+  if in_range 48 57 c then c - 48
+  else if in_range 97 122 c then c - 97 + 10
+  else if in_range 65 90 c then c - 65 + 10
+  else 63.
+
+(* the digit loop "for err == nil" of nat.scan (base = 0: '_' is a separator).
+   prev: 0 = '.', 1 = '0' (a digit), 2 = '_';  [seen] = (count > 0).
+   Returns (the unread rest, prev, invalSep, count > 0, value): the loop ends at the end of the text or, with
+   r.UnreadByte(), at the first character that is not a digit of base b. *)
+Fixpoint big_scan_loop (b : N) (s : list N) (prev : N) (inval seen : bool) (acc : N)
+  : list N * N * bool * bool * N :=
   match s with
-  | [] => Some acc
-  | c :: s' => match hex_digit_val c with
-               | Some d => hex_val s' (acc * 16 + d)
-               | None => None
-               end
+  | [] => ([], prev, inval, seen, acc)
+  | c :: s' =>
+      if c =? 95 then big_scan_loop b s' 2 (inval || negb (prev =? 1)) seen acc
+      else
+        let d := big_digit c in
+        if b <=? d then (s, prev, inval, seen, acc)
+        else big_scan_loop b s' 1 inval true (acc * b + d)
   end.
 
-Definition hex_to_float (value : list N) : option fval :=
-  match skipn 2 value with
-  | [] => None
-  | hs => match hex_val hs 0 with
-          | Some n => Some (int_to_float n)
-          | None => None
-          end
+(* nat.scan(r, 0, false): (Some value | None = err != nil, the unread rest).
+   A leading "0" is followed by b/B, o/O, x/X (prefix, not counted, the next character is read) or by anything
+   else (prefix '0': octal, the character is looked at again by the loop); "0" alone is decimal zero. *)
+Definition big_nat_scan0 (s : list N) : option N * list N :=
+  let finish (octal0 : bool) (r : list N * N * bool * bool * N) : option N * list N :=
+    let '(rest, prev, inval, seen, acc) := r in
+    if inval || (prev =? 2) then (None, rest)                       (* errInvalSep *)
+    else if seen then (Some acc, rest)
+    else if octal0 then (Some 0, rest)                              (* only the octal prefix 0: decimal 0 *)
+    else (None, rest) in                                            (* errNoDigits *)
+  match s with
+  | [] => (None, [])                                                (* no digits *)
+  | c0 :: s1 =>
+      if c0 =? 48 then
+        match s1 with
+        | [] => (Some 0, [])                                        (* count = 1, b = 10 *)
+        | c1 :: s2 =>
+            if (c1 =? 98) || (c1 =? 66) then finish false (big_scan_loop 2 s2 1 false false 0)
+            else if (c1 =? 111) || (c1 =? 79) then finish false (big_scan_loop 8 s2 1 false false 0)
+            else if (c1 =? 120) || (c1 =? 88) then finish false (big_scan_loop 16 s2 1 false false 0)
+            else finish true (big_scan_loop 8 s1 1 false false 0)
+        end
+      else finish false (big_scan_loop 10 s 0 false false 0)
+  end.
+
+(* Int.SetString(s, 0): Some (negative, magnitude); "0 has no sign" *)
+Definition big_set_string0 (s : list N) : option (bool * N) :=
+  let '(neg, body) :=
+    match s with
+    | c :: s' => if c =? 45 then (true, s') else if c =? 43 then (false, s') else (false, s)
+    | [] => (false, s)
+    end in
+  match big_nat_scan0 body with
+  | (Some n, []) => Some (neg && negb (n =? 0), n)
+  | _ => None
+  end.
+
+(* func parseRadixToFloat(s string) (float64, bool): big.Int.SetString(s, 0), big.Float.SetInt, Float64() --
+   the float64 nearest to the integer (parseNumber calls it only on values with a 0x / 0b / 0o prefix, which
+   carry no sign) *)
+Definition radix_to_float (value : list N) : option fval :=
+  match big_set_string0 value with
+  | Some (neg, n) => Some (if neg then fneg (int_to_float n) else int_to_float n)
+  | None => None
   end.
 
 (* func (p *Parser) parseNumber(): the literal built from the NUMBER token's value *)
@@ -507,7 +577,7 @@ Definition parse_number (value : list N) : lval :=
         match parse_uint value base with
         | POk u => VUInt u
         | PErr _ =>
-            match (if is_hex then hex_to_float value else parse_float value) with
+            match (if is_hex || is_bin || is_oct then radix_to_float value else parse_float value) with
             | Some f => VFloat f
             | None => VStr value true
             end
